@@ -33,7 +33,11 @@ CLAIMED["C12"] = dict(cat="fault_enumeration", ref="DESIGN.md 3.8",
    text="Delivery and disk clauses only. A simulated HTTP transport replaces urlopen(); for every generated payload (adversarial texts with LF/CRLF/lone CR/other Unicode line boundaries and 2-4 byte characters; small tables in common-dialect CSV/ARFF/LibSVM/Manik) the real HttpSource->_byte_it_->DelimSource path is run for EVERY chunk_size 1..len+1 under identity, gzip and deflate content encodings (the whole delivery space of the public API) plus seeded short-read schedules; lines must equal text.splitlines(); tables are additionally parsed by the real readers after delivery. DiskSink->DiskSource round trips (plain/.gz, all batch settings, several writes) must be identical.",
    note="NOT decided: the format-grammar clause of C12 (alternative spellings: quote styles, escapes, comments, keyword case) is a statement about a pure parser and is outside this technique. Trusted base: the fake urlopen/response object; payloads are sampled, chunk sizes enumerated exhaustively per payload.",
    tech="transport simulator with exhaustive segmentation enumeration (chunk size x content encoding) per payload + seeded short reads, differential oracle against whole-text splitlines")
-PENDING = {k: "claimed in DESIGN.md; check under construction in this round (deterministic-simulation engine exists, driver not yet committed)" for k in ("C04","C05")}
+CLAIMED["C05"] = dict(cat="exploration", ref="DESIGN.md 3.5",
+   text="Independence clause decided by simulation: 2-5 callers each own a CobaRandom(seed_i) and a script of calls; the seeded scheduler interleaves them call by call with an interference task (coba.random.seed and module-level draws, stdlib random, creation of other instances with equal/different seeds, pickling) and runs some callers inside simulated spawned processes with pristine module state; every caller's observed stream must equal the stream the same script produces solo. Contract clause: every value produced is checked against its documented contract, with seeds biased to the boundary states of the 30-bit LCG - input selection, reported as such.",
+   note="The contract clause is NOT decided for all 2^30 states x all arguments: it is checked at the states these runs reach (listed in the evidence). One known finding (uniform == max for a 2^-20 wide range at offset 2^20) is listed in known_findings.json. PYTHONHASHSEED is fixed to 0, so a hash()-dependent seed derivation would not be noticed.",
+   tech="deterministic simulation: seeded call-by-call interleaving of generator instances with interference steps and process-boundary virtualisation, differential oracle against the solo stream")
+PENDING = {k: "claimed in DESIGN.md; check under construction in this round (deterministic-simulation engine exists, driver not yet committed)" for k in ("C04",)}
 NA = {
  "C06": "SequentialCB is a single-threaded loop whose outputs are a pure function of (environment, learner, mode); no schedule, clock, fault or crash point occurs in the property.",
  "C09": "Ordering/selection filters are pure functions of (input sequence, parameters, seed); nothing for a simulator to schedule or fault.",
